@@ -249,7 +249,8 @@ class Interp:
                 return ClsRef("exp." + rest)
             if rest == "DataType.Type":
                 return Ext("exp.DataType.Type")
-        if d.startswith(("duckdb.", "snowflake.connector.errors.")) and d.rsplit(".", 1)[-1][:1].isupper():
+        last = d.rsplit(".", 1)[-1]
+        if d.startswith(("duckdb.", "snowflake.connector.")) and last[:1].isupper() and last.endswith(("Error", "Exception")):
             return ClsRef(d)
         return Ext(d)
 
@@ -621,7 +622,7 @@ class Interp:
                     if is_property(fn[2]):
                         return self.call_func(f, [], {}, site)
                     return f
-            if base.kind == "duck":
+            if base.kind in ("duck", "arrow"):
                 return Bound(base, a)
             return Sym(f"{base.name}.{a}", origin=("attr", base, a))
         if isinstance(base, NodeV):
@@ -1071,7 +1072,7 @@ class Interp:
             if recv.kind == "duck":
                 return self.hooks.engine(self, recv, name, args, kwargs, site)
             self.effect("call", f"{recv.name}.{name}", args, kwargs, site)
-            return Sym(f"{recv.name}.{name}()@{self.siteid(site)}", origin=("method", recv, name, args))
+            return Sym(f"{recv.name}.{name}()@{self.siteid(site)}", origin=("method", recv, name, args, kwargs))
         if isinstance(recv, ArgsView):
             if name == "get":
                 v = self.node_arg(recv.node, a0.v) if isinstance(a0, Const) else Sym(f"{recv.tag}.get({tagof(a0)})")
